@@ -54,6 +54,8 @@ def obligations(tier):
                       expect="known", finding=KEY_IMPOSSIBLE, timeout=t))
     obs.append(Ob("L1.is_valid_total[YYYY.JJJ]", "c09.py", "is_valid_total_doy", {}, timeout=t))
     obs.append(Ob("L1.is_valid_total[{pycalver}]", "c09.py", "is_valid_total_v1", {}, timeout=t))
+    # L3a: the scope given on the command line is the one used, independent of commit/tag/push
+    obs += [o for o in _c10.obligations(tier) if o.name.startswith("L1.parse_vcs_options")]
     # L3 scope -> listing command, fetch only when asked (shared with C10); L4 uniqueness (shared with C01)
     obs += [o for o in _c10.obligations(tier) if o.name.startswith("L4.get_tags_fetch")]
     obs += list(_c01.aux_obs("MAJOR.MINOR", 99, t))[1:]
